@@ -642,8 +642,8 @@ def _arr(x):
     return np.asarray(x.asarray())
 
 
-def _check_values(rep, site, lab, res, S, expected, dt):
-    """Result must be a member of S with the expected values."""
+def _check_values(rep, site, lab, res, S, expected, dt, tol=0.0):
+    """Result must be a member of S with the expected values (exact unless ``tol`` is given)."""
     ok = True
     if not _try(lambda: res in S)[1] is True:
         rep.bad(site, 'result_not_in_space', '%s: result of element() is not in the space' % lab)
@@ -656,7 +656,10 @@ def _check_values(rep, site, lab, res, S, expected, dt):
         rep.bad(site, 'shape_or_dtype_differs', '%s: got shape %s dtype %s, expected %s %s'
                 % (lab, got.shape, got.dtype, expected.shape, dt))
         return False
-    if not np.array_equal(got, expected):
+    same = np.array_equal(got, expected)
+    if not same and tol and got.dtype.kind in 'fc':
+        same = bool(np.all(np.abs(got - expected) <= tol * (1.0 + np.abs(expected))))
+    if not same:
         rep.bad(site, 'values_differ', '%s: got %s expected %s'
                 % (lab, got.tolist(), expected.tolist()))
         ok = False
@@ -756,7 +759,7 @@ def _run_element_tensor(cfg, recipe, rep):
             if _try(f)[0] == 'ok':
                 rep.bad(site, 'invalid_arguments_accepted', '%s does not raise' % lab)
 
-    def case(lab, inp, want, expected=None, order=None, share=None, sig=None):
+    def case(lab, inp, want, expected=None, order=None, share=None, sig=None, tol=0.0):
         """want in 'same' | 'values' | 'raise' | 'either'."""
         rep.evals += 1
         kw = {} if order is None else {'order': order}
@@ -785,7 +788,7 @@ def _run_element_tensor(cfg, recipe, rep):
         if res is inp:
             rep.bad(site, 'non_member_returned_itself', '%s: element(x) is x' % lab)
             return res
-        _check_values(rep, site, lab, res, S, expected, dt)
+        _check_values(rep, site, lab, res, S, expected, dt, tol)
         if order is not None:
             a = _arr(res)
             if not a.flags[order + '_CONTIGUOUS']:
@@ -925,8 +928,15 @@ def _run_element_tensor(cfg, recipe, rep):
                 funcs = [('lambda x: 2*x[0]', lambda x: 2 * x[0] + 0 * x[1], 2 * mesh[0]),
                          ('lambda x: sum(x)+1', lambda x: sum(x) + 1.0, sum(mesh) + 1.0)]
             for lab, f, ref in funcs:
-                case('callable ' + lab, f, 'values', np.asarray(ref).astype(dt), sig='callable')
+                # sampling points are computed (linspace): 1e-12 relative, exact on dyadic grids
+                case('callable ' + lab, f, 'values', np.asarray(ref).astype(dt), sig='callable',
+                     tol=_sampling_tol(dt))
     return rep
+
+
+def _sampling_tol(dt):
+    eps = np.finfo(dt).eps
+    return 1e-12 if eps < 1e-12 else 1e-5 if eps < 1e-5 else 1e-2
 
 
 def _ud_coords(recipe):
